@@ -814,6 +814,11 @@ func (x *fx) unop(i *ssa.UnOp) {
 		x.nilCheck(v, "load")
 		r := x.load(x.curMem, v)
 		x.assume(x.valid(r.S, r.T, x.curTop()))
+		if g, ok := i.X.(*ssa.Global); ok && types.IsInterface(r.T) && (strings.HasPrefix(g.Name(), "Err") || g.Name() == "EOF") {
+			// sentinel error variables (io.EOF, ErrXxx) are never nil
+			x.assume("(not (= " + r.S + " (mk-iface 0 0)))")
+			x.assumptions["package-level sentinel error variables (ErrXxx, EOF) are non-nil"] = true
+		}
 		x.defVal(i, r)
 	case token.NOT:
 		x.defVal(i, &Val{T: i.Type(), S: not(v.S)})
